@@ -26,6 +26,26 @@ def unesc(s):
     return s.replace("\\n", "\n").replace("\\t", "\t").replace("\\\\", "\\")
 
 
+def sync_runner():
+    """ocaml/c05/run.ml = the FORM parser / value printer of ocaml/refsem/run.ml (owned by the RefSem engineer, who
+    extends it together with RefSem.v and harness/refgen) + the session driver of C05.  The copied part is refreshed
+    from its source whenever that changed, so that a new literal / primitive of the shared language does not show up
+    here as a difference between implementation and model."""
+    src = open(os.path.join(common.VERIF, "ocaml", "refsem", "run.ml")).read()
+    path = os.path.join(common.VERIF, "ocaml", "c05", "run.ml")
+    mine = open(path).read()
+    try:
+        a0, a1 = src.index("type sx ="), src.index("let show_outcome")
+        b0, b1 = mine.index("type sx ="), mine.index("\nlet show_obs")
+    except ValueError:
+        return "markers not found"
+    new = mine[:b0] + src[a0:a1].rstrip("\n") + "\n" + mine[b1:]
+    if new != mine:
+        open(path, "w").write(new)
+        return "refreshed"
+    return "unchanged"
+
+
 def replay_obj(failat, sources, kind, detail, extra=None, entry="EvalString"):
     o = {"kind": kind, "failat": failat, "texts": [unesc(t) for t in sources], "names": ["x", "y", "f", "zz1", "zzAfter"],
          "load_run": entry == "LoadString+Run", "entry_point": entry,
@@ -72,6 +92,7 @@ def main(argv):
         "constructs outside the reference evaluator (lazy arguments, eval, evaluated hash keys / indices, macros, infix, mdef) have no model: they are compared with the twin only",
     ]
 
+    c.notes.append("ocaml/c05/run.ml parser/printer part: " + sync_runner())
     cases = c.harness("c05")
     prop, corr = [], []
     stats = {"sessions_compared_with_model": 0, "texts_compared_with_model": 0, "sessions_without_model": 0,
